@@ -9,6 +9,7 @@ package shimagent
 //vsym:bound H09_mode: construction with the exported constructor over an arbitrary upstream content of 0..2 (thorough 0..3) identities (plain key, certificate whose KeyID decodes, certificate whose KeyID does not), mode on or off; then 0..1 (thorough 0..2) operations from {another client adds a decoding certificate upstream, AddHardCert of a new certificate, AddHardCert of a certificate the underlying agent already holds, Remove of an upstream certificate, RemoveAll}; then List, Signers and Sign for every identity; every certificate window and the clock symbolic with the clock inside the window
 
 import (
+	"github.com/theparanoids/ysshra/keyid"
 	"golang.org/x/crypto/ssh"
 )
 
@@ -28,6 +29,17 @@ func H09_mode() {
 		maxUp, maxOps = 3, 2
 	}
 	mode := vChoose(2, "no-upstream-mode") == 1
+	// a decoding KeyID is a YSSHCA KeyID of any type (C05: consistent attributes)
+	{
+		t := &mwKeyIDTemplate
+		t.IsHWKey, t.IsFirefighter = vNondetBool("kid-hwkey"), vNondetBool("kid-firefighter")
+		t.IsNonce, t.IsHeadless = vNondetBool("kid-nonce"), vNondetBool("kid-headless")
+		pol := vNondetU8("kid-policy")
+		vAssume(pol <= 3)
+		t.TouchPolicy = keyid.TouchPolicy(pol)
+		vAssume(vImplies(t.IsHeadless, vAnd(vAnd(!t.IsHWKey, !t.IsFirefighter), t.TouchPolicy == keyid.NeverTouch)))
+		vAssume(vImplies(t.IsNonce, vAnd(vAnd(!t.IsFirefighter, !t.IsHeadless), t.TouchPolicy == keyid.NeverTouch)))
+	}
 	up := &mwUpstream{failAt: -1}
 	mwCurrentUp = up
 	var upCerts []*ssh.Certificate
